@@ -106,6 +106,9 @@ pub fn run(run: &Run) {
     run.random("decode", run.cases(150_000, 4_000_000), 0.4, decode_strategy, check);
 }
 
-pub fn replay(_section: &str, case: &Json) -> Option<CheckResult> {
+pub fn replay(section: &str, case: &Json) -> Option<CheckResult> {
+    if section.starts_with("fuzz-") {
+        return super::fuzz_replay("C02", section, case);
+    }
     case_from::<Case>(case).map(|c| check(&c))
 }
